@@ -280,8 +280,13 @@ def run_unit(unit, only=None):
                 continue
             if space.has_kind(d, {"union", "pep604", "tvconstr"}):
                 # unions whose members share a wire form are lossy by the reference reading itself (as in C01)
+                # ... judged under the format's own dialect where that dialect passes native types through on BOTH sides (TOML dates,
+                # msgpack bytes): there Union[List[date], str] reads the text "a" as the list ["a"] by the reference reading itself
+                ou = ref.opts(native=native) if fmt in ("toml", "msgpack") else ref.opts()
                 try:
-                    lossless = ref.same(ref.decode(d, ref.encode(d, v, ctx, ref.opts()), ctx, ref.opts()), v)
+                    lossless = ref.same(ref.decode(d, ref.encode(d, v, ctx, ou), ctx, ou), v)
+                    if lossless and ou["native"]:
+                        lossless = ref.same(ref.decode(d, ref.encode(d, v, ctx, ref.opts()), ctx, ref.opts()), v)
                 except (ref.Reject, ref.Unspecified):
                     lossless = False
                 if not lossless:
